@@ -64,6 +64,20 @@ func profileFor(check, tier, variant string) *CheckDef {
 			d.MaxOps = 16
 			d.ForkDepth = 3
 		}
+	case "C12":
+		d.MinClients, d.MaxClients = 1, 2
+		d.MinOps, d.MaxOps = 3, 12
+		d.FSOnly, d.Images = true, true
+		d.PostRun = snapPostRun
+		if variant == "big" || (variant == "" && false) {
+			d.NoMerge = true
+		}
+	case "C12big":
+		d.Check = "C12"
+		d.MinClients, d.MaxClients = 1, 1
+		d.MinOps, d.MaxOps = 420, 470
+		d.FSOnly, d.Images, d.NoMerge = true, true, true
+		d.PostRun = snapPostRun
 	case "selftest":
 		d.MinClients, d.MaxClients = 1, 4
 		d.MinOps, d.MaxOps = 3, 10
